@@ -57,7 +57,8 @@ def mask_support_rule(chk, repo, clause):
         if not st:
             continue
         n += 1
-        v = nf.strip_apps(st[-1].data['value'], ('copy', 'deepcopy', 'shallowcopy', 'm:copy'))
+        from .common import final_attr_value
+        v = nf.strip_apps(final_attr_value(p, st[-1]), ('copy', 'deepcopy', 'shallowcopy', 'm:copy'))
         # outer casts (applied after the binarisation) are harmless
         a = v.single_atom() if isinstance(v, Poly) else None
         while a is not None and is_app(a, ('cast', 'm:astype')):
